@@ -364,7 +364,7 @@ func check(prop string, def propDef, tier string) {
 				continue
 			}
 			if !res.Reproduced || res.Digest != res.Digest2 {
-				harness = append(harness, fmt.Sprintf("NON-REPRODUCIBLE: %s %s (seed %d) did not replay in a fresh process (reproduced=%v digests %s/%s); not reported as a violation", v.Rule, v.Msg, v.Seed, res.Reproduced, res.Digest, res.Digest2))
+				harness = append(harness, fmt.Sprintf("NON-REPRODUCIBLE: %s %s (seed %d) did not replay in a fresh process (reproduced=%v digests %s/%s); not reported as a violation; replayed in the finding process: %v; panic stack of the original run:\n%s", v.Rule, v.Msg, v.Seed, res.Reproduced, res.Digest, res.Digest2, v.ReplayOK, v.Panic))
 				continue
 			}
 			dstPath := filepath.Join(verifDir, "replays", filepath.Base(v.Replay))
